@@ -110,10 +110,11 @@ Theorem C17_nonvacuous :
 Proof. exact nonvacuous. Qed.
 Print Assumptions C17_nonvacuous.
 
-(** and today's table covers the mechanism types of heimdall: at least 19 rows, each with
-    an Execute and a WithConfig method *)
-Example C17_table_covers_mechanisms :
-  List.length generated_table >= 19 /\
+(** today's table is not empty-handed: it has rows for at least ten mechanism types and every row
+    has an Execute and a WithConfig method (so [has_row] / [callable] are satisfiable for them) *)
+Theorem C17_table_covers_mechanisms :
+  List.length generated_table >= 10 /\
   forallb (fun r => match may_write r "Execute", may_write r "WithConfig" with
                     | Some _, Some _ => true | _, _ => false end) generated_table = true.
-Proof. split; [vm_compute; lia|vm_compute; reflexivity]. Qed.
+Proof. exact table_covers_mechanisms. Qed.
+Print Assumptions C17_table_covers_mechanisms.
